@@ -6,7 +6,7 @@ the identical text; the written file equals the returned text) and, through the 
 workbook OF ITS TRANSLATION (+) its own overrides, whatever is translated, written or loaded afterwards).
 
 MC   : MC_E2PW (ExecutorKeepsItsWorkbook, PipelineLeavesOverridesAlone, TextStableUntilAnnounced, TextIsCurrentAfterAnnounce,
-       FileEqualsText, VersionsDiffer).
+       FileEqualsText, VersionsDiffer); E2PWImpl variant "fixed" refines E2PW, variants "module_cache", "mtime_cache", "write_skips" must NOT.
 TRACE: random histories of replace / announce / text / write / new (file | text) / drop / set / get / sizes on the real Parser and real
        executors, judged by Trace_E2PW. The version a text or a class file was translated from is observed through the marker cell
        S1!A1 of a throw-away instance (3 = version 1, 7 = version 2).
@@ -27,6 +27,17 @@ def mc(run):
                             'PROPERTY PipelineLeavesOverridesAlone', 'PROPERTY TextStableUntilAnnounced', 'PROPERTY TextIsCurrentAfterAnnounce',
                             'PROPERTY FileEqualsText', 'INVARIANT VersionsDiffer'], workers=8, timeout=1500, coverage=True, tag='MC_E2PW')
     run.vacuity(r, ['Replace', 'Announce', 'GetText', 'WriteFile', 'NewFromFile', 'NewFromText', 'Drop', 'Set', 'Get', 'GetSizes'])
+    # the code-shaped pipeline (cached text + flag, class file on disk, load_module, instances) refines the ideal one; three deviating
+    # variants (a module cache by path, a setter that trusts an unchanged path, a write that is skipped) must not
+    ci = f'CONSTANTS Execs = {"{1}" if run.quick else "{1,2}"} WCoords = {{"S1A1","S2C3"}} Values = {{4}}'
+    r = run.tlc('MC_E2PWImpl', ['SPECIFICATION Spec', ci, 'CONSTANT Variant = "fixed"', 'PROPERTY Refines'], workers=8, timeout=3000, tag='MC_E2PWImpl_fixed', coverage=True)
+    run.vacuity(r, ['Replace', 'Announce', 'GetText', 'WriteFile', 'NewFromFile', 'NewFromText'])
+    for variant in ('module_cache', 'mtime_cache', 'write_skips'):
+        rv = run.tlc('MC_E2PWImpl', ['SPECIFICATION Spec', 'CONSTANTS Execs = {1} WCoords = {"S1A1"} Values = {4}', f'CONSTANT Variant = "{variant}"', 'PROPERTY Refines'],
+                     workers=4, timeout=900, tag=f'MC_E2PWImpl_{variant}', expect_ok=False)
+        if rv.ok:
+            raise core.MachineryError(f'the pipeline model with variant {variant} unexpectedly refines the ideal pipeline')
+        run.notes.append(f'pipeline model, variant {variant}: {rv.violated} violated after {len(rv.error_trace)} states (expected)')
 
 
 def version_of_text(text, pos):
